@@ -41,6 +41,7 @@ type callGrant struct {
 }
 
 type sproxy struct {
+	coreFaults bool
 	nfault int
 	inner  scheduler.Repository
 	faulty *faultyRepo
@@ -136,6 +137,19 @@ func (p *sproxy) GetNext(ctx context.Context) (def.Task, error) {
 }
 func (p *sproxy) MarkAsDispatched(ctx context.Context, id string) error {
 	r, g := p.gate("markdisp", "(CMarkDisp "+cq.Str(id)+")")
+	if p.coreFaults && g.fault != 0 && p.faulty != nil {
+		// the failure is the core repository's: the wrapper sees it too (and decides about its hook)
+		p.faulty.markDispFault.Store(int32(g.fault))
+		err := p.inner.MarkAsDispatched(ctx, id)
+		p.faulty.markDispFault.Store(0)
+		if err == nil {
+			// the task was not scheduled any more: the core refused before the injected failure applied
+			r.done <- resTerm(err)
+			return err
+		}
+		r.done <- resTerm(err)
+		return err
+	}
 	if g.fault == 1 {
 		r.done <- "(RRes (RErr EOther))"
 		return p.faultErr()
@@ -1036,6 +1050,7 @@ func sysMain(args []string) {
 	volatile := fs.Bool("volatile", false, "second configuration: Scheduler over NewVolatileTaskRepo(CronStore)")
 	out := fs.String("out", "", "output .v")
 	statsOut := fs.String("stats", "", "stats json")
+	coreFaults := fs.Bool("core-faults", false, "with -faults: a failing MarkAsDispatched is the CORE repository's failure (before or after taking effect), seen by the observable wrapper as well; there is no model for this placement: only the trace predicates are evaluated")
 	userHookFaults := fs.Bool("user-hook-faults", false, "exploration (not used by registered suites): with -faults, the hook's nested GetNext may also fail during the user's own mutations; see DESIGN.md §6, observation O3")
 	exhaustive := fs.Int("exhaustive", 0, "number of base scenarios; every placement of one fault (error-without-effect, error-after-effect, hook GetNext failure) over the scheduler's calls of each is run (ignores -n)")
 	pairs := fs.Bool("pairs", false, "with -exhaustive: also every placement of two faults")
@@ -1104,6 +1119,7 @@ func sysMain(args []string) {
 		} else {
 			s = newSysRun(r, stats, *faults)
 			s.userHookFaults = *userHookFaults
+			s.proxy.coreFaults = *coreFaults
 		}
 		if s.failed == "" && !s.ended {
 			s.run(*length)
